@@ -34,6 +34,19 @@ def main():
             broken.append(dict(kind="translator", what=str(e)))
         # 2. proofs
         pr = vlib.coq_check_property(a.pid)
+        # further property files of this property (theorems about model extensions built separately):
+        # Properties_<pid>_<name>.v, listed by the property module
+        for extra in getattr(mod, "EXTRA_PROPERTY_FILES", []):
+            pr2 = vlib.coq_check_property(extra)
+            pr["obligations"] += pr2["obligations"]
+            pr["discharged"] += pr2["discharged"]
+            pr["theorems"] = pr["theorems"] + pr2["theorems"]
+            pr["assumptions"].update(pr2.get("assumptions", {}))
+            pr["log"] = (pr.get("log", "") + "\n" + pr2.get("log", ""))[-6000:]
+            if not pr2["ok"]:
+                if pr["ok"]:
+                    pr["broken"] = pr2.get("broken", "theories/Properties_%s" % extra)
+                pr["ok"] = False
         res.add_proof(pr)
         if not pr["ok"]:
             broken.append(dict(kind="proof", what="Coq obligation no longer checks: %s" % pr.get("broken", "?"),
